@@ -360,7 +360,7 @@ func mustPass(fn *ssa.Function, hit func(ssa.Instruction) bool) (ok bool, offend
 		}
 		if _, isRet := b.Instrs[len(b.Instrs)-1].(*ssa.Return); isRet {
 			if i != 0 && len(b.Preds) == 0 {
-				continue
+				continue // unreachable or the recover block
 			}
 			if !out[i] {
 				// is hit before the return in this block? out covers whole block
@@ -584,4 +584,45 @@ func addrRoots(v ssa.Value) []ssa.Value {
 	}
 	walk(v, 0)
 	return out
+}
+
+
+// retVal returns the i-th result of a return instruction, seeing through the
+// result spilling go/ssa performs in functions with defers (`*r = v;
+// rundefers; return *r`).
+func retVal(ret *ssa.Return, i int) ssa.Value {
+	v := ret.Results[i]
+	ld, ok := v.(*ssa.UnOp)
+	if !ok || ld.Op != token.MUL {
+		return v
+	}
+	a, ok := ld.X.(*ssa.Alloc)
+	if !ok {
+		return v
+	}
+	// last store to a in the same block before the load
+	var last ssa.Value
+	for _, in := range ret.Block().Instrs {
+		if in == ssa.Instruction(ld) {
+			break
+		}
+		if st, ok := in.(*ssa.Store); ok && st.Addr == ssa.Value(a) {
+			last = st.Val
+		}
+	}
+	if last != nil {
+		return last
+	}
+	return v
+}
+
+
+// normalReturn: the Return terminating b, unless b is the function's recover
+// block (whose return only reloads the named results).
+func normalReturn(b *ssa.BasicBlock) (*ssa.Return, bool) {
+	if len(b.Instrs) == 0 || b == b.Parent().Recover {
+		return nil, false
+	}
+	r, ok := b.Instrs[len(b.Instrs)-1].(*ssa.Return)
+	return r, ok
 }
